@@ -55,7 +55,10 @@ MaxBatch     == 100
 BIG          == 2147483647             \* cap used by the projection for 2^32-1
 
 Escrow(chan) == IF chan = 0 THEN "esc0" ELSE "esc1"
-SrcCp(chan)  == IF chan = 0 THEN "channel-0" ELSE "channel-1"
+\* Noble-side identifiers of the two channels of the test-bed; the second one has a sequence number
+\* beyond 32 bits (ibc-go channel sequences are uint64) and differs from its counterparty end
+Chan1Id      == "channel-4294967296"
+SrcCp(chan)  == IF chan = 0 THEN "channel-0" ELSE Chan1Id
 
 InitEscrow == 1000000
 InitUser   == 100000
@@ -95,7 +98,7 @@ ProtoNames  == {"IBC", "CCTP", "HYP", "INT"}
 ActionNames == {"FEE", "SWAP"}
 
 CpUniverse == [p \in ProtoNames |-> CASE p = "CCTP" -> {"0", "1", "2"} [] p = "HYP" -> {"1", "2", "3"}
-                                        [] p = "INT" -> {"noble"} [] OTHER -> {"channel-0", "channel-1"}]
+                                        [] p = "INT" -> {"noble"} [] OTHER -> {"channel-0", Chan1Id}]
 
 Digits == {"0", "1", "2", "3", "4", "5", "6", "7", "8", "9"}
 U32Max == <<"4", "2", "9", "4", "9", "6", "7", "2", "9", "5">>
@@ -141,10 +144,15 @@ Move(s, from, to, d, n) ==
 (* Payload descriptor: parsing and validation (controller/adapter, types/core) *)
 
 FwTypes  == {"CCTP", "HYP", "INT"}                       \* registered ForwardingAttributes
-ActTypes == {"FEE"} \cup (IF SwapRegistered THEN {"TEST"} ELSE {})
+ActTypes == {"FEE"} \cup (IF SwapRegistered THEN {"TEST", "TEST3"} ELSE {})
+\* the test swap controller: halves the running amount, or TRIPLES it when its attribute says so
+\* (a denomination-changing action may return MORE units than it received: 6 -> 18 decimals)
+SwapOut(a, n) == IF a.at = "TEST3" THEN n * 3 ELSE n \div 2
 
-ValidRcpt(to) == to \in Acct \cup {"ORB", "ORB_UPPER", "DUST", "AUTH"}      \* valid bech32 with our prefix
-RcptAcct(to)  == CASE to \in {"ORB", "ORB_UPPER"} -> "orb" [] to = "DUST" -> "dust" [] OTHER -> to
+\* valid bech32 with our prefix; all-upper-case bech32 is valid and denotes the same account, MIXED case
+\* ("F1_MIXED", "ORB_MIXED"), a trailing blank ("F1_SPACE") and foreign prefixes are not addresses
+ValidRcpt(to) == to \in Acct \cup {"ORB", "ORB_UPPER", "DUST", "AUTH", "F1_UPPER"}
+RcptAcct(to)  == CASE to \in {"ORB", "ORB_UPPER"} -> "orb" [] to = "DUST" -> "dust" [] to = "F1_UPPER" -> "F1" [] OTHER -> to
 
 FeeParses(f) == f.k # "null"                              \* a null list element is malformed
 ActParsesOK(a) == /\ a.id # "NULL" /\ ActParses(a.id)
@@ -266,11 +274,11 @@ RunAction(s, coin, a, F) ==
   ELSE \* SWAP
      IF ~SwapRegistered THEN fail("no-action-controller", {})
      ELSE IF "swapSend" \in F THEN fail("swap-send", {"swapSend"})
-     ELSE IF coin.n \div 2 <= 0 THEN fail("swap-zero", {})
+     ELSE IF SwapOut(a, coin.n) <= 0 THEN fail("swap-zero", {})
      ELSE IF Restricted(s, "orb", "pool", coin.d) THEN fail("swap-send", {})
      ELSE [ok |-> TRUE, why |-> "", fired |-> {},
-           st |-> Move(Move(s, "orb", "pool", coin.d, coin.n), "pool", "orb", "uswap", coin.n \div 2),
-           coin |-> [d |-> "uswap", n |-> coin.n \div 2]]
+           st |-> Move(Move(s, "orb", "pool", coin.d, coin.n), "pool", "orb", "uswap", SwapOut(a, coin.n)),
+           coin |-> [d |-> "uswap", n |-> SwapOut(a, coin.n)]]
 
 \* trace = the coin each executed action saw and left, in execution order (C06)
 RECURSIVE RunActions(_, _, _, _, _, _)
@@ -674,8 +682,8 @@ XfActs(coin, acts, i) ==
        IF ActOf(a.id) = "FEE"
        THEN LET rest == XfActs([d |-> coin.d, n |-> coin.n - FeeTotal(coin.n, a.fees)], acts, i + 1)
             IN [xf |-> XfFees(coin, a.fees, 1) \o rest.xf, coin |-> rest.coin]
-       ELSE LET rest == XfActs([d |-> "uswap", n |-> coin.n \div 2], acts, i + 1)
-            IN [xf |-> <<XF("orb", "pool", coin.d, coin.n), XF("pool", "orb", "uswap", coin.n \div 2)>> \o rest.xf, coin |-> rest.coin]
+       ELSE LET rest == XfActs([d |-> "uswap", n |-> SwapOut(a, coin.n)], acts, i + 1)
+            IN [xf |-> <<XF("orb", "pool", coin.d, coin.n), XF("pool", "orb", "uswap", SwapOut(a, coin.n))>> \o rest.xf, coin |-> rest.coin]
 \* for an orbiter transfer that succeeds
 XfersOf(s0, in) ==
   LET d == in.base  e == Escrow(in.chan)
